@@ -26,7 +26,7 @@ theorem adrain_succ (fuel : Nat) (t : ATracker) (a : Nat) (added : Bool) :
               adrain tie fuel { t with buf := erase t.buf a } (minKey? (keys (erase t.buf a))) added
           else
             adrain tie fuel { k := t.k + chunk.length, payload := t.payload ++ chunk, buf := erase t.buf a }
-              (minKey? (keys (erase t.buf a))) true
+              (minKey? (keys (erase t.buf a))) (added || !chunk.isEmpty)
         else (t, added) := by
   rfl
 
